@@ -7,6 +7,7 @@ tier adds the same rule on syscalls of the CLI under strace.  --clobber leg:
 every output completely rewritten (equals the reference run).
 """
 
+import io
 import itertools
 import os
 import re
@@ -226,6 +227,45 @@ def check_case(ctx, cr, out_name, write_log, rng, tier, max_subsets):
                 okb = False
             if okb:
                 ctx.count("bystander-ok")
+    # an earlier invocation in the same process (another output name, with a log) leaves nothing behind that makes
+    # this one touch the earlier run's files; and logging configured by an embedding application does not switch
+    # the log-file collision check off
+    ext_ = out_name.rsplit(".", 1)[1]
+    for first_opts, second_opts in ((["--write-log"], ["--no-write-log", "--no-clobber"]), (["--write-log", "--no-clobber"], ["--no-write-log", "--clobber"])):
+        ctx.case()
+        cli_runs.clear_outputs(cr)
+        r1 = cli_runs.run_pretext_to_asm(cr, f"earlier.{ext_}", first_opts)
+        if r1["exit_code"] != 0:
+            continue
+        before = {n: ((cr["dir"] / n).read_bytes(), (cr["dir"] / n).stat().st_ino) for n in outputs_of(cr)}
+        r2 = cli_runs.run_pretext_to_asm(cr, out_name, second_opts)
+        ctx.count("earlier-invocation-in-process-runs")
+        case = {**base_case, "earlier": first_opts, "then": second_opts}
+        if r2["exit_code"] != 0:
+            ctx.violation("earlier-invocation:run-failed-although-nothing-collides", f"{second_opts}: exit {r2['exit_code']} {r2['stderr'][-200:]}", case)
+            continue
+        bad = [n for n, (b_, ino) in before.items() if not (cr["dir"] / n).exists() or (cr["dir"] / n).read_bytes() != b_ or (cr["dir"] / n).stat().st_ino != ino]
+        if bad:
+            ctx.violation(f"earlier-invocation:file-of-the-earlier-run-was-altered:{_ftype(bad[0])}", f"{first_opts} then {second_opts}: {bad}", case)
+    if write_log:
+        import logging
+
+        ctx.case()
+        cli_runs.clear_outputs(cr)
+        logp_ = cr["dir"] / (out_name.rsplit(".", 1)[0] + ".log")
+        logp_.write_bytes(SENTINEL + b"log")
+        handler = logging.StreamHandler(io.StringIO())
+        logging.root.addHandler(handler)
+        try:
+            r3 = cli_runs.run_pretext_to_asm(cr, out_name, ["--write-log", "--no-clobber"])
+        finally:
+            logging.root.removeHandler(handler)
+        ctx.count("no-clobber:logging-already-configured-by-the-caller")
+        case = {**base_case, "subset": [logp_.name], "root_handler": True}
+        if r3["exit_code"] == 0:
+            ctx.violation("no-clobber:exit-status-zero:log:logging-already-configured", f"log pre-exists, exit 0; stderr {r3['stderr'][-200:]}", case)
+        elif logp_.read_bytes() != SENTINEL + b"log":
+            ctx.violation("no-clobber:pre-existing-file-changed:log:logging-already-configured", "log changed", case)
     # --clobber leg: sentinels longer than the real output; everything completely rewritten
     for sub in (list(files), [files[rng.randrange(len(files))]]):
         ctx.case()
@@ -434,6 +474,8 @@ def gates(c, tier):
         "format:agp": 8,
         "format:tpf": 8,
         "log:on": 15,
+        "earlier-invocation-in-process-runs": 30,
+        "no-clobber:logging-already-configured-by-the-caller": 10,
         "log:off": 15,
         "assemblies:multi": 8,
         "assemblies:single": 8,
